@@ -12,12 +12,12 @@ package main
 // table. No repository code is executed: the interpreter only walks syntax.
 
 import (
-	"os"
 	"fmt"
 	"go/ast"
 	"go/constant"
 	"go/token"
 	"go/types"
+	"os"
 	"sort"
 	"strings"
 
